@@ -662,8 +662,16 @@ func (h *harness) namespaceNode(nr *nodeRef) {
 		hn := hn
 		rejected := !spi.KidPattern.MatchString(hn.name)
 		// (i) the hostile string as a kid nobody registered: every use must fail, nothing outside may change
+		var registered int64
+		_ = nr.db.Raw("SELECT count(*) FROM key_reference WHERE kid = ?", hn.name).Scan(&registered).Error
+		succeededBefore := r.Get("namespace_calls_succeeded")
 		useKid(l, hn, hn.name, false, "(kid)")
 		useKidHTTP(hn, hn.name, false, "(kid)")
+		if registered == 0 && r.Get("namespace_calls_succeeded") > succeededBefore {
+			// keys are used by key id only: an operation for a key id that names no key can only have succeeded with somebody else's key
+			r.Violation("C03/namespace/unregistered-kid-used", fmt.Sprintf("a sign/decrypt/resolve operation succeeded for key id %q, which is not registered in the key store (class %s)", short(hn.name, 80), hn.class),
+				map[string]any{"kid": hn.name, "class": hn.class})
+		}
 		h.guarded(l, "Delete(kid)", hn, false, func() (bool, crypto.PublicKey, string) {
 			err := ks.Delete(ctx, hn.name)
 			return err == nil, nil, fmt.Sprintf("err=%v", err)
